@@ -1,8 +1,26 @@
-import Lean.Data.Json
-/- stub: the C07 driver is not built yet -/
+import Glom.Driver.InterpRun
 namespace Glom.C07.Driver
-open Lean
+open Lean Glom.Interp Glom.Interp.Codec Glom.Interp.Run
 
-def run (_j : Json) : Except String Json := .error "property C07: driver not implemented yet"
+/-- C07 checker: what every reader returned (value or PathAccessError) — hence the result of the
+    call — is what the lexically scoped model yields; the caller's scope mapping is untouched; a
+    second call with the same arguments behaves like the first (nothing outlives a call). -/
+def run (j : Json) : Except String Json := do
+  let c ← decode j
+  let (mres, mlog) := runModel c
+  if outOfDomain mres then
+    return Json.mkObj [("skip", true), ("why", "outside the modelled domain")]
+  let mlogJ := mlog.map evToJson
+  let logAgree := (Json.arr mlogJ.toArray).compress == (Json.arr c.implLog.toArray).compress
+  let untouched := (j.getObjValAs? Bool "impl_scope_untouched").toOption.getD true
+  let repeatSame := (j.getObjValAs? Bool "impl_repeat_same").toOption.getD true
+  let agree := resEq mres c.implRes && logAgree
+  let holds := resEq mres c.implRes && untouched && repeatSame
+  return Json.mkObj [("agree", agree), ("holds", holds),
+    ("why", if !untouched then "the caller's scope mapping was modified"
+            else if !repeatSame then "a second identical call behaved differently (state outlived the call)"
+            else if !holds then "result differs from the lexically scoped evaluation" else ""),
+    ("model", Json.mkObj [("res", resToJson mres), ("log", Json.arr mlogJ.toArray)]),
+    ("branch", match mres with | .ok _ => "ok" | .error e => s!"err-{e}")]
 
 end Glom.C07.Driver
